@@ -54,6 +54,7 @@ pub fn subs() -> Vec<Box<dyn AnySub>> {
             },
             check: check_respell,
         }),
+        Box::new(EnumSub { name: "long-paths", exhaustive: true, list: long_path_list, check: check_long_path }),
         Box::new(Sub { name: "e2e", quick: 15_000, thorough: 200_000, strat: random_path, check: check_e2e }),
         // the same paths under every option combination and request shape: the canonical path is a function of (path, mode) only
         Box::new(Sub {
@@ -234,6 +235,58 @@ fn compare(pc: &PathCase) -> Result<Option<String>, Failure> {
         (Ok((m, _)), Err(e)) => Err(Failure::new("canon-path-rejected-valid", format!("path {:?} s3={}: crate refuses ({}), reference gives {:?}", pc.path, pc.s3, e.msg, m))),
         (Err(me), Ok(r)) => Err(Failure::new("canon-path-accepted-invalid", format!("path {:?} s3={}: crate gives {:?}, reference refuses ({:?})", pc.path, pc.s3, r, me))),
     }
+}
+
+#[derive(Clone, Debug, Serialize, Deserialize)]
+pub struct LongPath {
+    pub piece: String,
+    pub count: usize,
+    pub s3: bool,
+}
+
+/// Paths whose RAW or CANONICAL length sits at a power of two (2^8 ... 2^17) or just beside it, built from
+/// pieces that grow under re-encoding ('*' -> %2A, a two-byte character -> six bytes), keep their length, or vanish.
+pub fn long_path_list(t: Tier) -> Vec<LongPath> {
+    let pieces: &[(&str, usize)] = &[("a", 1), ("*", 3), ("+", 3), ("%20", 3), ("%2a", 3), ("\u{e9}", 6), ("ab/", 3), ("%2F/", 4), ("./x", 1)];
+    let mut out = Vec::new();
+    for k in [8u32, 10, 12, 14, 15, 16, 17] {
+        if t == Tier::Quick && (k == 12 || k == 14) {
+            continue;
+        }
+        let target = 1usize << k;
+        for (piece, canon) in pieces {
+            for by in [*canon, piece.len()] {
+                // counts that put (1 + count * by) just below, at and just above the target
+                let n = (target - 1) / by;
+                for count in [n.saturating_sub(1), n, n + 1] {
+                    for s3 in [false, true] {
+                        out.push(LongPath { piece: piece.to_string(), count, s3 });
+                    }
+                }
+            }
+        }
+    }
+    out
+}
+
+pub fn check_long_path(lp: &LongPath, cc: &mut CaseCtx) -> CheckResult {
+    let path = format!("/{}", lp.piece.repeat(lp.count));
+    let mut inner = CaseCtx::default();
+    let r = check_path(&PathCase { path: path.clone(), s3: lp.s3 }, &mut inner);
+    cc.class("long-path");
+    cc.class_if(path.len() > 21_845, "raw-longer-than-a-third-of-64KiB");
+    cc.nontrivial(digest_of(&[lp.piece.as_bytes(), &lp.count.to_le_bytes(), &[lp.s3 as u8]]));
+    if lp.count % 7 == 0 {
+        cc.sample(json!({"path": format!("/ + {:?} x {}", lp.piece, lp.count), "raw_length": path.len(), "s3": lp.s3}));
+    }
+    r.map_err(|f| Failure::new(&f.sig, format!("path '/' + {:?} x {} (raw {} bytes, s3={}): {}", lp.piece, lp.count, path.len(), lp.s3, f.msg.chars().take(300).collect::<String>())))?;
+    // end to end where the http crate can carry the target
+    if path.len() < 65_000 && lp.count % 2 == 0 {
+        let mut inner = CaseCtx::default();
+        check_e2e_shape(&PathCase { path, s3: lp.s3 }, 0, &mut inner).map_err(|f| Failure::new(&f.sig, format!("path '/' + {:?} x {} (s3={}): {}", lp.piece, lp.count, lp.s3, f.msg.chars().take(300).collect::<String>())))?;
+        cc.class("long-path-end-to-end");
+    }
+    Ok(())
 }
 
 pub fn check_path(pc: &PathCase, cc: &mut CaseCtx) -> CheckResult {
